@@ -14,7 +14,10 @@ Notation exec := (exec Cell Res slot_of multi_reader true).
    going away — leaves a lock held by that connection *)
 Theorem c12_released : forall st0 ls st t,
   exec st0 ls st ->
-  (match thr Cell Res st t with TIdle _ _ | TDead _ | TWait _ _ _ _ _ => True | TRun _ _ _ _ _ _ => False end) ->
+  (match thr Cell Res st t with
+   | TIdle _ _ _ _ | TDead _ _ _ | TWait _ _ _ _ _ _ _ => True
+   | TRun _ _ _ _ _ _ _ _ => False
+   end) ->
   forall a, ~ holds Cell Res slot_of multi_reader st t a.
 Proof. exact (released Cell Res slot_of multi_reader). Qed.
 
@@ -31,9 +34,11 @@ Proof. exact (at_most_one Cell Res slot_of multi_reader). Qed.
 
 (* hence no deadlock: while some connection still has work to do, some step is enabled —
    whatever the schedule so far, including panics and multi-key gets with overlapping keys
-   in opposite orders *)
+   in opposite orders. ([initial st0]: reachable from a state where every connection is idle;
+   it makes "is somebody inside a section" decidable — only the finitely many connections
+   that ever moved can be — so that the step is exhibited constructively.) *)
 Theorem c12_no_deadlock : forall st0 ls st t,
-  exec st0 ls st -> unfinished Cell Res st t ->
+  initial Cell Res st0 -> exec st0 ls st -> unfinished Cell Res st t ->
   exists l st', step Cell Res slot_of multi_reader true st l st' /\ (forall u, l <> LPanic Cell Res u).
 Proof. exact (no_deadlock Cell Res slot_of multi_reader). Qed.
 
@@ -47,8 +52,12 @@ Proof. exact (next_proceeds Cell Res slot_of multi_reader). Qed.
 End C12.
 Print Assumptions c12_no_deadlock.
 Print Assumptions c12_released.
+Print Assumptions c12_panic_closes.
+Print Assumptions c12_at_most_one.
+Print Assumptions c12_next_proceeds.
 
 (* the behaviour before the fix: LockedOrca.Get recovered the panic, unlocked, and did NOT
    re-panic — the server loop carried on with a connection whose reply was never written *)
 Theorem c12_get_swallowed_panic_refuted : old_get_panic_model_leaves_connection_open.
 Proof. exact old_get_panic_refuted. Qed.
+Print Assumptions c12_get_swallowed_panic_refuted.
